@@ -29,6 +29,7 @@ type checker struct {
 	unbound  map[string]int64 // accepted, differs only outside the normal form: kind/component (region) -> count
 	rejected map[string]int64 // kind/region -> count
 	reasons  map[string]map[string]int64
+	sampled  map[string]bool
 }
 
 // verdict describes how one (possibly altered) response fared.
@@ -118,6 +119,15 @@ func (c *checker) judgeAltered(v verdict, accepted bool, verr error, cmp func() 
 	c.r.Eval(1)
 	c.r.Nontrivial(v.kind + "/" + v.field + "/" + v.mut)
 	c.r.Count("cases/"+v.kind+"/"+v.level, 1)
+	if v.kind != "state-root" {
+		c.mu.Lock()
+		first := !c.sampled[v.kind]
+		c.sampled[v.kind] = true
+		c.mu.Unlock()
+		if first {
+			c.r.Sample(map[string]any{"kind": v.kind, "altered": v.field, "mutation": v.mut, "level": v.level, "accepted": accepted, "error": fmt.Sprint(verr), "case": witness()})
+		}
+	}
 	if !accepted {
 		c.mu.Lock()
 		c.rejected[v.kind+"/"+v.field]++
